@@ -99,8 +99,10 @@ def instant(ts):
     z = mm.group(8)
     if z not in "Zz":
         off = (1 if z[0] == "+" else -1) * (int(z[1:3]) * 3600 + int(z[4:6]) * 60)
-    base = datetime.datetime(y, mo, d, h, mi, s, tzinfo=datetime.timezone.utc)
-    return (int(base.timestamp()) - off, ns)
+    leap = 1 if s == 60 else 0
+    base = datetime.datetime(y, mo, d, h, mi, min(s, 59), tzinfo=datetime.timezone.utc)
+    # a leap second is kept distinguishable from the following second (as the library's data model does)
+    return (int((base - datetime.datetime(1970, 1, 1, tzinfo=datetime.timezone.utc)).total_seconds()) - off, ns, leap)
 
 
 def gen_cases(rng, n):
